@@ -69,6 +69,7 @@ def find(key: str):
     src, mod = load(relpath)
     node = mod
     parts = [p for p in qual.split(".") if p != "<locals>"]
+    outer = None  # (qualified name, node) of the outermost enclosing function
     for i, part in enumerate(parts):
         body = node.body
         nxt = _find_in(body, part, want_setter and i == len(parts) - 1)
@@ -80,7 +81,17 @@ def find(key: str):
         if nxt is None:
             raise KeyError(f"carrier not found: {key} (missing '{part}')")
         node = nxt
+        if outer is None and isinstance(node, (ast.FunctionDef, ast.AsyncFunctionDef)):
+            outer = (".".join(parts[: i + 1]), node)
     seg = ast.get_source_segment(src, node) or ""
+    if os.environ.get("VERIF_NO_ALIGN") != "1":
+        # a commit that only renames locals must not make the sidecar contract inapplicable: rename them back to the names the
+        # contract was written against (alpha-renaming, see pyvc/align.py); nested helpers are re-anchored through their outermost function
+        from . import align
+
+        if outer is not None and outer[1] is not node:
+            align.reanchor(relpath + ":" + outer[0], outer[1], ast.get_source_segment(src, outer[1]) or "")
+        align.reanchor(key0.replace("@setter", ""), node, seg)
     _find_cache[key0] = (node, seg, hashlib.sha256(seg.encode()).hexdigest())
     return _find_cache[key0]
 
